@@ -35,6 +35,7 @@ SOFTWARE.
 #%% 
 import numpy as np 
 import math
+from fractions import Fraction
 import copy
 import re
 
@@ -1168,6 +1169,13 @@ class Fxp():
         if isinstance(val, np.ndarray) and val.dtype == object and val.ndim > 0:
             # arrays of python numbers: integers are kept, floats are rounded one by one by the same rule
             rval = np.array([v if isinstance(v, int) else self._round(v, method=method) for v in val.flatten()], dtype=object).reshape(val.shape)
+        elif isinstance(val, np.ndarray) and val.dtype == object and val.ndim == 0 and isinstance(val.item(), Fraction):
+            rval = np.array(self._round(val.item(), method=method), dtype=object)
+        elif isinstance(val, Fraction):
+            # an exact rational (an arithmetic result that loses fraction bits): rounded exactly to a python integer
+            if method not in self.config._rounding_list:
+                raise ValueError('<{}> rounding method not valid!')
+            rval = {'around': round, 'floor': math.floor, 'ceil': math.ceil, 'fix': math.trunc, 'trunc': math.trunc}[method](val)
         elif isinstance(val, int) or np.issubdtype(np.array(val).dtype, np.integer) or np.issubdtype(np.array(val).dtype, np.object_):
             rval = val
         elif method == 'around':
